@@ -184,6 +184,13 @@ func (sms *sqlMetadataStore) AppendObject(ctx context.Context, tx *sql.Tx, bucke
 		return nil, err
 	}
 
+	if oldObjectEntity != nil && !metadatastore.IsNullVersionID(oldObjectEntity.VersionID) {
+		// The current object is a version with a generated id (written while
+		// versioning was enabled, bucket now suspended). Only the null version
+		// may be modified in place; the append becomes the new null version.
+		return sms.PutObject(ctx, tx, bucketName, obj, nil)
+	}
+
 	if oldObjectEntity != nil {
 		existingParts, err := sms.partRepository.FindPartsByObjectIdOrderBySequenceNumberAsc(ctx, tx, *oldObjectEntity.Id)
 		if err != nil {
